@@ -7,6 +7,7 @@ Domain   (object half) MHLHashList graphs built the way the tool's own callers b
          characters, astral-plane, combining marks, exotic spaces and U+2028/U+2029; chains with 0-8 generations.
          (scenario half) every manifest and chain file produced by generated create histories (with overwritten
          and renamed files), read file by file and through the history loader (MHLHistory.load_from_path).
+         Later additions: every manifest also read through MHLHistory.load_from_path; reference folders with leading dots.
 Oracle   write_hash_list -> parse: field-by-field equality for the fields the statement lists (None and '' are
          identified, hash dates compared as instants); the independent xml.etree reader must extract the same
          values from the same bytes (differential).  Same for write_chain -> parse.
